@@ -19,12 +19,26 @@ trip itself, for every text:
     and postfix `...`, printed with the minimum of parentheses the precedences require (`Parse.pp`),
     is read back by `fallback` as the same tree up to spans — precedence, associativity, the
     `|`-versus-`||` look-ahead, and the back-tracking of the sequence loop, for every tree.
-Open: the same with juxtaposition (`.sub`), descriptions after groups and escaped literals inside
-the ladder (the lexers' own round trips are above), and arbitrary layout between tokens.
+  * `ladder_roundtrip_layout` (`Proofs/LadderLayout.lean`) — the same with *any* admissible layout
+    between the tokens: every stretch of blanks, form feeds and closed `#` comments (chosen per
+    position of the tree: between the items of a sequence, on either side of `|` and `||`, inside
+    brackets and parentheses, before a postfix `...`; at least one character between two words, and no
+    `#` directly after a word, where it would be part of the word).  `Parse.pp` is the instance with
+    one blank at the operators (`plain_printer_is_a_layout`).
+  * `ladder_roundtrip_full` (`Proofs/LadderFull.lean`) — the ladder with escaped literals, descriptions
+    (of literals and distributed over groups) and juxtaposition inside words, for the printer `pp'`.
+  * `grammar_roundtrip`, `grammar_roundtrip_layout` (`Proofs/Statements.lean`) — whole files: statements
+    of the three kinds over the operator ladder, under every admissible layout, through the model of
+    `Grammar::parse` with the fuel it provides itself.
+Open: layout and whole files for the larger fragment of `ladder_roundtrip_full` (escapes, descriptions,
+juxtaposition); `{{{ }}}` commands containing `}`.
 -/
 import Complgen.Model.Parse
 import Complgen.Proofs.Lexer
 import Complgen.Proofs.Ladder
+import Complgen.Proofs.LadderLayout
+import Complgen.Proofs.LadderFull
+import Complgen.Proofs.Statements
 namespace Complgen.Props.C05
 open Complgen Complgen.Parse
 
@@ -113,5 +127,70 @@ theorem ladder_roundtrip (e : Expr) (hnf : NF e) (rest : List Char) (hrest : Fol
 theorem ladder_followers (r : List Char) :
     Follows [] ∧ Follows (';' :: r) ∧ Follows (')' :: r) ∧ Follows (']' :: r) :=
   ⟨Follows_nil, Follows_semicolon r, Follows_rparen r, Follows_rbracket r⟩
+
+/-- **The operator ladder round-trips under every admissible layout.** -/
+theorem ladder_roundtrip_layout (e : Expr) (hnf : NF e) (lay : Layout) (adm : lay.Adm)
+    (rest : List Char) (hrest : Follows rest) (s : PState) (hs : s.rest = ppL lay 0 e ++ rest)
+    (fuel : Nat) (hfuel : fuelNeeded e ≤ fuel) :
+    ∃ e', fallback fuel s = some (s.adv (ppL lay 0 e).length, e') ∧ e'.eraseSpans = e.eraseSpans :=
+  fallback_roundtrip_layout e hnf lay adm rest hrest s hs fuel hfuel
+
+/-- the plain printer is the printer with layout at one blank around the operators, an admissible
+layout -/
+theorem plain_printer_is_a_layout (ctx : Nat) (e : Expr) :
+    pp ctx e = ppL plainLayout ctx e ∧ plainLayout.Adm :=
+  ⟨pp_eq_ppL ctx e, plainLayout_adm⟩
+
+/-- Non-vacuity: a layout with a comment, a line break and a form feed is admissible. -/
+example : IsLayoutW [' ', '#', 'x', '\n', '\x0c', ' '] ∧ IsLayout ['#', '\n'] ∧ ¬ IsLayout ['#', 'a'] := by
+  refine ⟨⟨by decide, fun r h => by cases h⟩, by decide, by decide⟩
+
+/-- **The ladder round-trips with escapes, descriptions and juxtaposition** (`Proofs/LadderFull.lean`):
+the fragment `NF'` — literals over every character the lexer admits (printed with the fewest
+escapes), literals with a description, descriptions distributed over a group (`( … ) "d"`), words
+built by juxtaposition (`--opt=<V>`), and the operators of `ladder_roundtrip` — printed by `pp'`
+(parentheses where precedence, the three-dots rule or the description rule need them) is read back
+as the same tree up to spans. -/
+theorem ladder_roundtrip_full (e : Expr) (hnf : Full.NF' e) (rest : List Char) (hrest : Follows rest) (s : PState)
+    (hs : s.rest = Full.pp' 0 e ++ rest) (fuel : Nat) (hfuel : fuelNeeded e ≤ fuel) :
+    ∃ e', fallback fuel s = some (s.adv (Full.pp' 0 e).length, e') ∧ e'.eraseSpans = e.eraseSpans :=
+  fallback_roundtrip_full e hnf rest hrest s hs fuel hfuel
+
+/-- the larger fragment contains the smaller, with the same printed text -/
+theorem full_subsumes_plain (e : Expr) (h : NF e) : Full.NF' e ∧ ∀ ctx, ctx ≤ 4 → Full.pp' ctx e = pp ctx e :=
+  ⟨Full.NF_sub e h, Full.pp'_eq_pp e h⟩
+
+/-- the side conditions of `NF'` and the extra parentheses of `pp'` are needed: kernel-evaluated runs
+of the parser model on the offending texts (two juxtaposed literals read as one; a word inside a word
+is flattened; a literal starting with `#` is a comment; `a....` is not `(a.)...`; `a "d"` is not
+`(a) "d"`) -/
+theorem full_restrictions_needed :
+    Full.readsBack (.sub (.seq (ExprL.ofList [.term "a" none 0 ⟨0, 0, 0⟩, .term "b" none 0 ⟨0, 0, 0⟩]) ⟨0, 0, 0⟩) 0 ⟨0, 0, 0⟩) = false ∧
+    Full.readsBack (.seq (ExprL.ofList [.term "x" none 0 ⟨0, 0, 0⟩, .term "#y" none 0 ⟨0, 0, 0⟩]) ⟨0, 0, 0⟩) = false ∧
+    Full.readsAs ['a', '.', '.', '.', '.'] (.many1 (.term "a." none 0 ⟨0, 0, 0⟩) ⟨0, 0, 0⟩) = false ∧
+    Full.readsAs ['a', ' ', '"', 'd', '"'] (.dd (.term "a" none 0 ⟨0, 0, 0⟩) "d" ⟨0, 0, 0⟩) = false :=
+  ⟨Full.word_two_literals, Full.hash_literal, Full.dots_unparenthesised, Full.dd_unparenthesised.1⟩
+
+/-- **Whole grammars round-trip** (`Proofs/Statements.lean`): every list of statements of the fragment
+(`cmd expr;`, `<NAME> ::= expr;`, `<NAME@shell> ::= expr;` over the operator ladder), printed one
+statement per line, is read back by the model of `Grammar::parse` as the same grammar up to spans —
+with the fuel `Grammar::parse` itself provides (no fuel hypothesis). -/
+theorem grammar_roundtrip (g : Grammar) (hg : ∀ st ∈ g, StmtNF st) :
+    ∃ g', parse (ppGrammar g) = .ok g' ∧ g'.map Stmt.eraseSpans = g.map Stmt.eraseSpans :=
+  Parse.grammar_roundtrip g hg
+
+/-- … and under every admissible layout of the file: blanks / comments at the beginning, after the
+statement name, around `::=` or `=` (either sign), inside the expression (`ladder_roundtrip_layout`),
+before `;`, between statements; the last `;` optional. -/
+theorem grammar_roundtrip_layout (g : Grammar) (hg : ∀ st ∈ g, StmtNF st) (G : GLayout) (adm : G.Adm g) :
+    ∃ g', parse (ppGrammarL G g) = .ok g' ∧ g'.map Stmt.eraseSpans = g.map Stmt.eraseSpans :=
+  Parse.grammar_roundtrip_layout g hg G adm
+
+/-- Non-vacuity: a two-statement grammar under a layout with comments, a tab, `=` and no final `;`. -/
+example : ∃ g', parse "# example\ncmd\ta <X> ;\n\n# next\n<X>\t=b | [c] ".toList = .ok g' ∧
+    g'.map Stmt.eraseSpans = exGrammar.map Stmt.eraseSpans := by
+  have h := Parse.grammar_roundtrip_layout exGrammar exGrammar_nf exLayout exLayout_adm
+  rwa [show ppGrammarL exLayout exGrammar =
+    "# example\ncmd\ta <X> ;\n\n# next\n<X>\t=b | [c] ".toList by decide] at h
 
 end Complgen.Props.C05
